@@ -8,7 +8,9 @@ A *case* is a JSON-able dict (so that it can be written into a replay file):
                                                 #   ('twice' = two copies side by side)
      'conds': [cond, ...],                      # 1..n conditions (one for unless / call)
      'bodies': [[ref, ...], ...],               # per condition: references placed in its body
-     'else':  None | [ref, ...]}                # chain only
+     'else':  None | [ref, ...],                # chain only
+     'boom':  bool}                             # optional: probes of the conditions after the
+                                                #   first true one are armed to raise
 
     cond = {'k': kind, 'n': name, 't': truth, 'v': value index, 'a': attribute style}
     ref  = [name, form, [wrapper, ...]]         # re-reference of an evaluated name, nested in wrappers
@@ -297,7 +299,22 @@ class Holder:
         return self.value
 
 
-def make_namespace(case, rec):
+class Boom(Exception):
+    """Raised by a probe that the conditional must not evaluate."""
+
+
+def armed_names(case, chosen):
+    """Probe names of conditions after the chosen branch (case['boom']): arming them to raise
+    turns any evaluation after the first true condition into a failed render."""
+    if not case.get('boom') or not isinstance(chosen, int):
+        return ()
+    conds = case['conds']
+    early = set(c['n'] for c in conds[:chosen + 1])
+    return tuple(sorted(set(c['n'] for c in conds[chosen + 1:]
+                            if c['k'] in ('nc', 'ex', 'ei') and c['n'] not in early)))
+
+
+def make_namespace(case, rec, armed=()):
     """-> (mapping, kw) for template(None, mapping, **kw)."""
     from DocumentTemplate.DT_HTML import HTML
     from vlib.common import ProbeCallable
@@ -307,6 +324,8 @@ def make_namespace(case, rec):
 
     def probe(label):
         rec.log('call', label)
+        if label in armed:
+            raise Boom(label)
         return values.get(label)
     kw['probe'] = probe
 
@@ -318,7 +337,7 @@ def make_namespace(case, rec):
         if n in kw or n in logged:
             continue                    # a repeated name: one binding
         if k in ('nc', 'ei'):
-            kw[n] = ProbeCallable(rec, n, result=v)
+            kw[n] = ProbeCallable(rec, n, result=v, raise_=Boom(n) if n in armed else None)
         elif k == 'nf':
             def f(n=n, v=v):
                 rec.log('call', n)
